@@ -59,6 +59,11 @@ pub unsafe extern "C" fn getrandom(buf: *mut u8, len: usize, _flags: u32) -> isi
 }
 
 static ITER: AtomicU64 = AtomicU64::new(0);
+/// Order in which operations of the current execution started: (thread, operation). Plain std
+/// mutex: it adds no scheduling point (shuttle runs its tasks on one OS thread at a time).
+static OPLOG: std::sync::Mutex<Vec<(u8, u8)>> = std::sync::Mutex::new(Vec::new());
+/// Fingerprints of executions: (number of threads, observed interleaving of operation starts).
+static FINGERPRINTS: std::sync::Mutex<Vec<(u64, bool)>> = std::sync::Mutex::new(Vec::new());
 static OPS: AtomicU64 = AtomicU64::new(0);
 static THREADS: AtomicU64 = AtomicU64::new(0);
 static LOCKED_CALLS: AtomicU64 = AtomicU64::new(0);
@@ -146,6 +151,7 @@ fn thread_program(fx: Arc<Fixture>, tid: usize, mut seed: u64, n_ops: usize) {
     for _ in 0..n_ops {
         OPS.fetch_add(1, Ordering::Relaxed);
         let op = xorshift(&mut seed) % 13;
+        OPLOG.lock().unwrap().push((tid as u8, op as u8));
         // an extra scheduling point between operations
         thread::sleep(std::time::Duration::from_millis(0));
         match op {
@@ -320,6 +326,27 @@ fn scenario() {
     for h in hs {
         h.join().expect("C19: a thread panicked");
     }
+    // fingerprint of this execution = the observed interleaving; it is "interleaved" when some
+    // thread's operations were interrupted by another thread's
+    let log = std::mem::take(&mut *OPLOG.lock().unwrap());
+    let mut h = 0xcbf29ce484222325u64 ^ n_threads as u64;
+    let mut finished: Vec<u8> = vec![];
+    let mut interleaved = false;
+    let mut last: Option<u8> = None;
+    for (t, o) in &log {
+        h = (h ^ *t as u64).wrapping_mul(0x100000001b3);
+        h = (h ^ *o as u64).wrapping_mul(0x100000001b3);
+        if last != Some(*t) {
+            if finished.contains(t) {
+                interleaved = true;
+            }
+            if let Some(l) = last {
+                finished.push(l);
+            }
+            last = Some(*t);
+        }
+    }
+    FINGERPRINTS.lock().unwrap().push((h, interleaved));
 }
 
 fn config(dir: &str) -> Config {
@@ -383,6 +410,8 @@ fn main() {
             println!(
                 "RESULT {}",
                 serde_json::json!({"kind": kind, "seed": seed, "iterations": ITER.load(Ordering::Relaxed), "threads": THREADS.load(Ordering::Relaxed),
+                    "fingerprints": FINGERPRINTS.lock().unwrap().iter().filter(|f| f.1).map(|f| f.0).collect::<Vec<u64>>(),
+                    "fingerprints_all": FINGERPRINTS.lock().unwrap().iter().map(|f| f.0).collect::<Vec<u64>>(),
                     "ops": OPS.load(Ordering::Relaxed), "locked": LOCKED_CALLS.load(Ordering::Relaxed), "message": msg, "schedule": sched})
             );
         }
@@ -419,6 +448,8 @@ fn main() {
             let mut done: Vec<(String, u64)> = vec![];
             let (mut iterations, mut threads, mut ops, mut locked) = (0u64, 0u64, 0u64, 0u64);
             let mut harness_error = None;
+            let mut fps: HashSet<u64> = HashSet::new();
+            let mut fps_all: HashSet<u64> = HashSet::new();
             for c in children {
                 let out = c.wait_with_output().expect("wait");
                 let text = String::from_utf8_lossy(&out.stdout).to_string();
@@ -429,6 +460,12 @@ fn main() {
                         threads += v["threads"].as_u64().unwrap_or(0);
                         ops += v["ops"].as_u64().unwrap_or(0);
                         locked += v["locked"].as_u64().unwrap_or(0);
+                        for f in v["fingerprints"].as_array().cloned().unwrap_or_default() {
+                            fps.insert(f.as_u64().unwrap_or(0));
+                        }
+                        for f in v["fingerprints_all"].as_array().cloned().unwrap_or_default() {
+                            fps_all.insert(f.as_u64().unwrap_or(0));
+                        }
                         done.push((v["kind"].as_str().unwrap_or("").to_string(), v["iterations"].as_u64().unwrap_or(0)));
                         if let Some(m) = v["message"].as_str() {
                             if failure.is_none() {
@@ -476,8 +513,9 @@ fn main() {
                 "violations": if code == 0 { 0 } else { 1 },
                 "coverage": {
                     "evaluations": iterations,
-                    "distinct_nontrivial": iterations,
-                    "rule": "one evaluation = one complete execution of the scenario under one seeded thread schedule (shuttle RandomScheduler / PctScheduler depth 2 and 3, one scheduler seed per worker process). Each execution draws from shuttle::rand a fresh fixture seed, 2-4 threads and 2-5 operations per thread, so the (workload, schedule) pairs are distinct executions by construction of the seeded generators; every execution has >= 2 threads contending for the instance's RNG mutex, which is the non-triviality criterion. The count is the sum of the workers' iteration counters, measured.",
+                    "distinct_nontrivial": fps.len(),
+                    "distinct_interleavings_all": fps_all.len(),
+                    "rule": "one evaluation = one complete execution of the scenario under one seeded thread schedule (shuttle RandomScheduler / PctScheduler depth 2 and 3, one scheduler seed per worker process); each execution draws from shuttle::rand a fresh fixture seed, 2-4 threads and 2-5 operations per thread. The fingerprint of an execution is the hash of (number of threads, observed order in which the operations of all threads started, with their kinds). An execution is non-trivial when it was really interleaved: some thread started an operation after another thread had run in between its operations. distinct_nontrivial counts distinct fingerprints among interleaved executions with a hash set over all worker processes.",
                     "samples": [{"scheduler": "random", "threads": "2-4", "ops_per_thread": "2-5", "operations": ["encaps+decaps", "decaps stored", "pke encrypt+decrypt", "pke decrypt stored", "header generate+decrypt", "header decrypt stored", "keygen on private MSK", "rekey + refresh on private MSK/USK", "recaps", "failing encaps / keygen (invalid policy)"]}],
                     "schedulers": done.iter().map(|(k, n)| serde_json::json!({"kind": k, "iterations": n})).collect::<Vec<_>>(),
                     "threads_spawned": threads,
